@@ -401,6 +401,9 @@ struct State {
     lib: Vec<Matrix>,
     model: Vec<M>,
     next: f64,
+    /// every entry is counter · 2^scale_exp (structural operations move data, so any magnitude must survive
+    /// unchanged; tiny entries make every square matrix "symmetric" under an absolute tolerance)
+    scale: f64,
 }
 
 fn raw_matrix(flat: Vec<f64>, r: usize, c: usize) -> Matrix {
@@ -409,8 +412,8 @@ fn raw_matrix(flat: Vec<f64>, r: usize, c: usize) -> Matrix {
 }
 
 impl State {
-    fn new() -> State {
-        let mut st = State { lib: vec![], model: vec![], next: 1.0 };
+    fn new(scale_exp: i32) -> State {
+        let mut st = State { lib: vec![], model: vec![], next: 1.0, scale: 2f64.powi(scale_exp.clamp(-900, 900)) };
         for (r, c) in [(2usize, 3usize), (4, 2), (1, 5), (3, 3)] {
             let d = st.fresh(r * c);
             st.model.push(m_from_flat(&d, r, c));
@@ -422,7 +425,7 @@ impl State {
     fn fresh(&mut self, n: usize) -> Vec<f64> {
         (0..n)
             .map(|_| {
-                let v = self.next;
+                let v = self.next * self.scale;
                 self.next += 1.0;
                 v
             })
@@ -876,7 +879,12 @@ impl State {
 /// Interpret `ops` in lock-step on the library and on the model. `Err` = first disagreement
 /// (signature `C15/program/<op>/<value|shape|invariant|missing-panic|spurious-panic>`).
 pub fn run_program(ops: &[Op]) -> Result<Stats, Fail> {
-    let mut st = State::new();
+    run_program_scaled(ops, 0)
+}
+
+/// The same interpreter with every matrix entry multiplied by 2^scale_exp.
+pub fn run_program_scaled(ops: &[Op], scale_exp: i32) -> Result<Stats, Fail> {
+    let mut st = State::new(scale_exp);
     let mut stats = Stats::default();
     for (i, op) in ops.iter().enumerate() {
         let out = st.step(i, op)?;
